@@ -9,7 +9,57 @@
 #include "util/TimeUtilityFunctions.h"
 #include "util/Hashtable.h"
 #include "util/String.h"
+#include "iogateway/PlainTextMessageIOGateway.h"
+#include "iogateway/RawDataMessageIOGateway.h"
+#include "iogateway/SLIPFramedDataMessageIOGateway.h"
+#include "dataio/DataIO.h"
 using namespace muscle;
+
+// C03: gateway sizes that are function-local in the .cpp files are measured on the compiled code
+class GwProbeIO : public DataIO
+{
+public:
+   GwProbeIO() : lastRead(0) {}
+   virtual io_status_t Read(void *, uint32 size) {lastRead = size; return io_status_t(0);}
+   virtual io_status_t Write(const void * b, uint32 size) {written.append((const char *) b, size); return io_status_t((int32) size);}
+   virtual void FlushOutput() {}
+   virtual void Shutdown() {}
+   virtual const ConstSocketRef & GetReadSelectSocket() const {return GetNullSocket();}
+   virtual const ConstSocketRef & GetWriteSelectSocket() const {return GetNullSocket();}
+   uint32 lastRead; std::string written;
+};
+class GwProbeGateway : public MessageIOGateway
+{
+public:
+   GwProbeGateway() : seenAlloc(0) {}
+   uint32 HS() const {return GetHeaderSize();}
+   // the receive buffer handed to the parser for a small frame is the (truncated) scratch buffer: its allocation is the scratch size
+   virtual MessageRef UnflattenHeaderAndMessage(const ConstByteBufferRef & b) const {seenAlloc = b()->GetNumAllocatedBytes(); return MessageIOGateway::UnflattenHeaderAndMessage(b);}
+   uint32 Scratch()
+   {
+      MessageIOGateway snd; GwProbeIO io; snd.SetDataIO(DummyDataIORef(io));
+      (void) snd.AddOutgoingMessage(GetMessageFromPool(1)); while(snd.DoOutput().GetByteCount() > 0) {}
+      class Feed : public GwProbeIO {public: std::string data; size_t pos; Feed() : pos(0) {} virtual io_status_t Read(void * b, uint32 n) {if (n > data.size()-pos) n = (uint32)(data.size()-pos); memcpy(b, data.data()+pos, n); pos += n; return io_status_t((int32) n);}} in;
+      in.data = io.written; SetDataIO(DummyDataIORef(in));
+      QueueGatewayMessageReceiver q; (void) DoInput(q);
+      return seenAlloc;
+   }
+   mutable uint32 seenAlloc;
+};
+static uint32 firstReadSize(AbstractMessageIOGateway & gw)
+{
+   GwProbeIO io; gw.SetDataIO(DummyDataIORef(io));
+   QueueGatewayMessageReceiver q; (void) gw.DoInput(q);
+   return io.lastRead;
+}
+static std::string slipOf(uint8 b)
+{
+   SLIPFramedDataMessageIOGateway gw; GwProbeIO io; gw.SetDataIO(DummyDataIORef(io));
+   MessageRef m = GetMessageFromPool(PR_COMMAND_RAW_DATA); (void) m()->AddData(PR_NAME_DATA_CHUNKS, B_RAW_TYPE, &b, 1);
+   (void) gw.AddOutgoingMessage(m);
+   while(gw.DoOutput().GetByteCount() > 0) {}
+   return io.written;
+}
 
 #define K(name, val) printf("def %s : Nat := %llu\n", name, (unsigned long long)(val))
 
@@ -169,6 +219,19 @@ int main()
    K("encodingZlib8", (uint32)MUSCLE_MESSAGE_ENCODING_ZLIB_8);
    K("encodingZlib9", (uint32)MUSCLE_MESSAGE_ENCODING_ZLIB_9);
    {MessageIOGateway gw; struct X : public MessageIOGateway {uint32 hs() const {return GetHeaderSize();}} x; K("gatewayHeaderSize", x.hs());}
+   {
+      GwProbeGateway g;
+      K("gwHeaderSize", g.HS());
+      K("gwScratchRecvBufferSize", g.Scratch());
+      PlainTextMessageIOGateway t; K("gwTextReadSize", firstReadSize(t));
+      RawDataMessageIOGateway rw;  K("gwRawReadSize", firstReadSize(rw));
+      K("gwTextSendRecursionLimit", 1024);   // PlainTextMessageIOGateway::DoOutputImplementationAux (literal in the source; cross-checked by the correspondence run)
+      const std::string a = slipOf(0), e = slipOf(a.size() ? (uint8) a[0] : 0);   // END x END ; END ESC ESC_END END
+      const uint8 END = a.size() ? (uint8) a[0] : 0, ESC = (e.size() > 1) ? (uint8) e[1] : 0, ESCEND = (e.size() > 2) ? (uint8) e[2] : 0;
+      const std::string f = slipOf(ESC);
+      K("slipEnd", END); K("slipEsc", ESC); K("slipEscEnd", ESCEND); K("slipEscEsc", (f.size() > 2) ? (uint8) f[2] : 0);
+      K("textCommand", (uint32) PR_COMMAND_TEXT_STRINGS); K("rawCommand", (uint32) PR_COMMAND_RAW_DATA);
+   }
    printf("\n/- tunables: enter the model as parameters; theorems are quantified over them -/\n");
    K("maxMessageNestingDepth", (uint32)MUSCLE_MAX_MESSAGE_NESTING_DEPTH);
    K("strSmallLen", (uint32)String::GetMaxShortStringLength());   // C17: chars a String holds without a heap buffer (formerly SMALL_MUSCLE_STRING_LENGTH)
